@@ -51,7 +51,8 @@ def build_reader(d, layout):
         i0 = 0
         off = int(layout.get('offset', 0))
         for k, ln in enumerate(layout['parts']):
-            p = d / ('rec%d%s' % (k, EXTS[(k + int(layout.get('fill', 0))) % len(EXTS)]))
+            # file names whose lexicographic order is the reverse of the recording order
+            p = d / ('rec_%s%d%s' % (chr(ord('z') - k), k, EXTS[(k + int(layout.get('fill', 0))) % len(EXTS)]))
             with open(p, 'wb') as f:
                 f.write(b'\xab' * off)
                 f.write(np.ascontiguousarray(A[i0:i0 + ln]).tobytes())
